@@ -8,6 +8,7 @@ import sys, os
 sys.path.insert(0, "harness/py")
 import common
 common.ensure_coq_makefile()
+common.gen_format()      # the Gen_*.v files come from /repo's current sources, not from what happens to be committed
 vos = [f[:-2] + ".vo" for f in common.coq_files()]
 ok, log = common.build_coq(vos)
 print(log[-2000:])
